@@ -13,9 +13,12 @@ package bfe_http2
 //       counter by exactly the number of control frames it queued - a flood cannot stay under the limit
 //       by being miscounted;
 //   (c) the limit is a positive constant.
-// The comparison itself sits inline in serve()'s select loop and is not executed here (notes/C37.md).
+// The comparison itself sits inline in serve()'s select loop; VerifC37_serve runs that loop with the harness
+// as the only other party (notes/C37.md).
 
 import (
+	"io"
+
 	vrt "github.com/bfenetworks/bfe/zz_vrt"
 )
 
@@ -70,7 +73,13 @@ func VerifC37_step() {
 		sc.writingFrame = true
 		inflight = frameWriteMsg{write: writePingAck{&PingFrame{}}}
 	}
-	sc.needToSendSettingsAck = vrt.Bool("needToSendSettingsAck")
+	// a SETTINGS acknowledgement may be owed: produced by the real processSettings while the writer is
+	// stalled (with an idle writer the acknowledgement is handed to the writer at once, it is never pending
+	// between two steps). How the server remembers it - a flag or a queue entry - is its own business; a
+	// queue entry falls under Inv like every other control frame.
+	if stalled && vrt.Bool("settingsAckOwed") {
+		sc.processSettings(&SettingsFrame{FrameHeader: FrameHeader{valid: true, Type: FrameSettings}})
+	}
 	if vrt.Bool("inGoAway") {
 		sc.inGoAway = true
 		sc.goAwayCode = ErrCode(vrt.U32("goAwayCode"))
@@ -91,9 +100,9 @@ func VerifC37_step() {
 		}
 		err := sc.processPing(f)
 		vrt.Assert(err == nil, "C37/ping-accepted")
-	case 1: // SETTINGS (empty, not an ack): answered through the needToSendSettingsAck flag, never queued
+	case 1: // SETTINGS (empty, not an ack): bfe coalesces the acknowledgements in a flag; an implementation
+		// that queues (and counts) one per frame would be as good, so only Inv is demanded
 		f := &SettingsFrame{FrameHeader: FrameHeader{valid: true, Type: FrameSettings}}
-		elicited = 0
 		sc.processSettings(f)
 	case 2: // a stream error on the request stream or on an unknown stream: RST_STREAM is queued
 		id := uint32(1)
@@ -156,5 +165,95 @@ func VerifC37_flood() {
 		vrt.Assert(sc.queuedControlFrames == i+1, "C37/flood-counter-tracks-queue")
 		vrt.Assert(controlQueuedC37(sc) == i+1, "C37/flood-counter-tracks-queue")
 		vrt.Assert(len(sc.writeFrameCh) == 0, "C37/stalled-writer-gets-nothing-more")
+	}
+}
+
+// prefaceConnC37 is a client that sends the connection preface and then nothing on the socket (the frames
+// of the flood are handed to the serve loop directly, the way readFrames would), and never reads.
+type prefaceConnC37 struct {
+	fakeConnH2
+	pos int
+}
+
+func (c *prefaceConnC37) Read(p []byte) (int, error) {
+	n := copy(p, clientPreface[c.pos:])
+	c.pos += n
+	return n, nil
+}
+
+// VerifC37_serve: the limit check itself. The real serve() runs on a hand-built serverConn; the harness is
+// the only other party (vrt.OnBlock): whenever the loop waits in its select the harness first looks at
+// the scheduler - the loop must never go back to waiting with more than the limit of control frames
+// pending - and then delivers the next event the way the reader goroutine / the reload signal would:
+// FLOOD PING frames, optionally preceded or interrupted by the graceful-shutdown notification
+// (CloseNotifyCh closed -> goAway(NO_ERROR)), finally EOF. The `go` statements of serve() are recorded and
+// never run: the frame writer never reports back, i.e. the client does not read. To keep the run short
+// the scheduler already holds PRE = limit-SLACK PING acks when serve() is entered (with the counter equal
+// to their number, the invariant VerifC37_step proves inductive and VerifC37_flood shows a flood produces);
+// PRE=0 with FLOOD > limit is the complete flood from a fresh connection.
+func VerifC37_serve() {
+	sc, _ := newConnH2()
+	pc := &prefaceConnC37{}
+	sc.conn = pc
+	sc.sawFirstSettings = true
+	sc.readFrameCh = make(chan readFrameResult, 1) // capacity 1: the harness is not a goroutine that could rendezvous
+	closeNotify := make(chan bool)
+	sc.closeNotifyCh = closeNotify
+	limit := sc.srv.maxQueuedControlFrames()
+	flood := vrt.Param("FLOOD", 8)
+	pre := vrt.Param("PRE", -1)
+	if pre < 0 {
+		pre = limit - vrt.Param("SLACK", 3)
+	}
+	if pre > 0 {
+		q := make([]frameWriteMsg, pre)
+		for i := range q {
+			q[i] = frameWriteMsg{write: writePingAck{&PingFrame{}}}
+		}
+		sc.writeSched.zero.s = q
+		sc.queuedControlFrames = pre
+		sc.writingFrame = true // a frame is with the write goroutine, blocked on the client's full receive buffer
+	}
+	// when the reload signal arrives: never / before the flood / after two frames of it
+	gracefulAt := vrt.Choose("gracefulShutdownAt", 3) - 1
+	if gracefulAt == 1 {
+		gracefulAt = 2
+	}
+
+	waits, delivered := 0, 0
+	prefaceRead, notified, eofSent := false, false, false
+	peer := func() {
+		if !prefaceRead { // serve() waits in readPreface: run its reader goroutine
+			prefaceRead = true
+			vrt.RunGo(vrt.GoCount() - 1)
+			return
+		}
+		waits++
+		vrt.Assert(controlQueuedC37(sc) <= limit, "C37/serve-loop-never-waits-with-more-than-the-limit-pending")
+		if !notified && gracefulAt >= 0 && delivered >= gracefulAt {
+			notified = true
+			close(closeNotify)
+			return
+		}
+		if delivered < flood {
+			delivered++
+			sc.readFrameCh <- readFrameResult{f: &PingFrame{FrameHeader: FrameHeader{valid: true, Type: FramePing, Length: 8}}, readMore: func() {}}
+			return
+		}
+		eofSent = true
+		sc.readFrameCh <- readFrameResult{err: io.EOF, readMore: func() {}}
+	}
+	vrt.OnBlock(peer)
+	sc.serve()
+	vrt.OnBlock(nil)
+
+	vrt.Assert(pc.closed, "C37/connection-closed-when-serve-returns")
+	if !eofSent {
+		// serve() gave up by itself: it must have been the flood check (nothing else can end this run)
+		vrt.Assert(delivered > 0 && sc.queuedControlFrames > limit, "C37/serve-ended-by-the-limit-check")
+		vrt.Cover("C37/flood-past-the-limit-closes-the-connection")
+	}
+	if gracefulAt >= 0 && notified {
+		vrt.Cover("C37/flood-during-graceful-shutdown")
 	}
 }
